@@ -570,6 +570,10 @@ def iso_parse(s, ParseError):
 
 def sym_parse_date(orig, ParseError=None):
     def parse_date(s, *a, **k):
+        from datetime import datetime as _dt
+
+        if isinstance(s, _dt):
+            return s  # a datetime-typed cell the ORM would have rendered as text and parsed back
         if isinstance(s, SIsoStr):
             return s.dt
         if isinstance(s, SStr):
